@@ -322,6 +322,7 @@ Section RmwBest.
     in_pt q (nthZ regs rc) (eval args [] v) -> atom o q rc v c = Some b -> evalc args regs c = b.
   Hypothesis improves_sound : forall q cur val, in_pt q cur val -> o_improves o q = true -> ble val cur.
   Hypothesis skipok_sound : forall q cur val, in_pt q cur val -> o_skipok o q = true -> ble cur val.
+  Hypothesis skipok_complete : forall q cur val, dom val -> in_pt q cur val -> ble cur val -> o_skipok o q = true.
 
   (* what an abstract state says about a concrete one (m: current value of the location) *)
   Definition desc (m : Z) (args regs : list Z) (v : expr) (s : astate) : Prop :=
@@ -397,7 +398,9 @@ Section RmwBest.
       + destruct (a_phase s) as [|rc pts|].
         * rewrite nthZ_set_same. split; [apply ble_refl|]. now apply cover.
         * rewrite nthZ_set_same. split; [apply ble_refl|]. now apply cover.
-        * exact Hp.
+        * rewrite nthZ_set_same. split; [apply ble_refl|].
+          destruct (cover (m l) (eval (t_args t) [] v) Hdom) as (q & Hq & Hin). exists q. split; [|exact Hin].
+          apply filter_In. split; [exact Hq|]. eapply skipok_complete; eauto.
     - (* cas *)
       destruct (a_phase s) as [|rc pts|] eqn:Eph; try discriminate.
       destruct (is_reg rc old && expr_eqb new v && forallb (o_improves o) pts) eqn:Ec; [|discriminate].
@@ -745,6 +748,7 @@ Proof.
   - intros. eapply atom_sound_max; eauto.
   - intros q cur val Hin Hi. destruct q; cbn in *; try discriminate; lia.
   - intros q cur val Hin Hi. destruct q; cbn in *; try discriminate; lia.
+  - intros q cur val _ Hin Hb. destruct q; cbn in *; auto; lia.
   - fold c in A, B, C. apply maxZ_char; auto.
 Qed.
 
@@ -783,6 +787,7 @@ Proof.
   - intros q rc v args regs c0 b Hr [Hin Hd0] Ha. eapply atom_sound_min; eauto.
   - intros q cur val [Hin Hd0] Hi0. unfold ble_min. destruct q; cbn in *; try discriminate; lia.
   - intros q cur val [Hin Hd0] Hi0. unfold ble_min. destruct q; cbn in *; try discriminate; lia.
+  - intros q cur val _ [Hin Hd0] Hb. unfold ble_min in Hb. destruct q; cbn in *; auto; lia.
   - fold c in A, B, C. apply minZ_char; auto.
 Qed.
 
@@ -899,6 +904,13 @@ Example class_short_circuit : is_rmw_loop min_spec
   [ILoad 0; IJmpIf (CNot (CEq (EReg 0) (EConst (-1)))) 5; ICas 1 (EReg 0) ex_v; IJmpIf ex_ok 10; IJmp 0;
    IJmpIf (CNot (CLt ex_v (EReg 0))) 10; ICas 1 (EReg 0) ex_v; IJmpIf ex_ok 10; IJmp 0; IRet; IRet]%nat ex_v = true.
 Proof. vm_compute. auto. Qed.
+
+(* `if (v <= cur || CAS(cur, v)) && p { break }` with an opaque p: the loop may run again after a successful swap; what
+   it loads then is known to be good enough *)
+Example class_again_after_success : is_rmw_loop max_spec
+  [ILoad 0; IJmpIf (CNot (CLt (EReg 0) ex_v)) 4; ICas 1 (EReg 0) ex_v; IJmpIf (CEq (EReg 1) (EConst 0)) 5;
+   IJmpIf (CEq (EArg 2) (EArg 2)) 6; IJmp 0; IRet]%nat ex_v = true.
+Proof. vm_compute. reflexivity. Qed.
 
 (* rejected: load-compare-store; one CAS attempt without retry; a plain store on the sentinel path; the CAS executed
    whatever the test says (the condition `skip || CAS` evaluated without short-circuit); the CAS in the wrong direction *)
